@@ -91,7 +91,19 @@ func (x *Exec) collInfo(tg *Tag) *CollInfo {
 }
 
 // collType finds the Go type of field `field` of module's Keeper.
+var collTypeCache = map[string]types.Type{}
+
 func (x *Exec) collType(module, field string) types.Type {
+	ck := module + "." + field
+	if t, ok := collTypeCache[ck]; ok {
+		return t
+	}
+	t := x.collTypeSlow(module, field)
+	collTypeCache[ck] = t
+	return t
+}
+
+func (x *Exec) collTypeSlow(module, field string) types.Type {
 	for _, p := range x.prog.SSA.AllPackages() {
 		if p.Pkg.Path() != fmt.Sprintf("%s/x/%s/keeper", modPath, module) {
 			continue
